@@ -192,6 +192,52 @@ class Fn:
                 work.append(s)
         return seen
 
+    def reachable_ps(self, starts, removed_blocks=(), removed_edges=()):
+        """like reachable(), but path-sensitive in the value of bool locals that are assigned constants (the shape
+        `matches!`/`&&`/`||` compile to): a switch on such a local only follows the edge its known value selects"""
+        removed_blocks = set(removed_blocks)
+        removed_edges = set(removed_edges)
+        seen = set()
+        out = set()
+        work = [(s, frozenset()) for s in starts if s not in removed_blocks]
+        while work:
+            b, known = work.pop()
+            if (b, known) in seen or len(seen) > 20000:
+                continue
+            seen.add((b, known))
+            out.add(b)
+            k = dict(known)
+            for st in self.blocks[b]['st']:
+                if st['k'] != 'assign' or st['d']['p']:
+                    continue
+                l = st['d']['l']
+                rv = st['rv']
+                if rv['k'] == 'use' and rv['a'].get('o') == 'const' and rv['a'].get('t') == 'bool' and rv['a'].get('v') is not None:
+                    k[l] = rv['a']['v']
+                elif rv['k'] == 'use' and rv['a'].get('l') in k and not rv['a'].get('p'):
+                    k[l] = k[rv['a']['l']]
+                else:
+                    k.pop(l, None)
+            t = self.blocks[b]['t']
+            if t['k'] == 'call' and not t['d']['p']:
+                k.pop(t['d']['l'], None)
+            succs = self.succ(b)
+            if t['k'] == 'switch' and t['a'].get('l') in k and not t['a'].get('p'):
+                v = k[t['a']['l']]
+                tgt = None
+                for val, bb2 in t['arms']:
+                    if val == v:
+                        tgt = bb2
+                if tgt is None:
+                    tgt = t['otherwise']
+                succs = [tgt]
+            nk = frozenset(k.items())
+            for s2 in succs:
+                if s2 in removed_blocks or (b, s2) in removed_edges:
+                    continue
+                work.append((s2, nk))
+        return out
+
     def reachable_after(self, b, removed_blocks=(), removed_edges=()):
         """blocks reachable strictly after block b's terminator"""
         removed_blocks = set(removed_blocks)
